@@ -1405,6 +1405,7 @@ func main() {
 	replay := flag.String("replay", "", "replay file (one op per line)")
 	corpus := flag.String("corpus", "", "corpus dir, run first (files rh-*.txt)")
 	zd := flag.Bool("zero-debond", true, "generate worlds with staking DebondingInterval = 0 too (a fatal path is known there, see corpus/C10/rh-zero-debonding-expired-committee-node.txt)")
+	dist := flag.Int("dist", 0, "cases of the slashed-funds distribution phase (real distributeSlashedFunds vs the Lean model om_slash); 0: skip")
 	spec := flag.String("spec", "c10", "c10: fatal errors/panics of block execution; c08: failed transactions leave the state unchanged")
 	flag.Parse()
 	zeroDebond = *zd
@@ -1471,6 +1472,9 @@ func main() {
 				res.Count("corpus")
 			}
 		}
+	}
+	if *dist > 0 && !specC08 {
+		runDist(hlib.FromState(hlib.NewRng(*seed^0x5d15).Next()), *dist, res)
 	}
 	rng := hlib.FromState(hlib.NewRng(*seed).Next())
 	seen := map[string]bool{}
